@@ -360,13 +360,13 @@ Section Closed.
     sm_action (run_summary debug a (path ++ rest)) =
       match help_line_parse a (path ++ rest) with
       | Err k => AError k
-      | Ok _ => match parse (b_fmt b) true (path ++ rest) with Ok _ => AHelpCmd p | Err k => AHelpFail k end
+      | Ok _ => match help_lenient (b_fmt b) (path ++ rest) with Ok _ => AHelpCmd p | Err k => AHelpFail k end
       end.
   Proof.
     intros Hst Hw Hd. rewrite help_anywhere_closed.
     destruct (help_line_parse a (path ++ rest)) as [[fx x]|k] eqn:E; [|reflexivity].
     unfold help_page. rewrite (help_target_walks a (path ++ rest) b p).
-    - rewrite Hd. cbn [pick_default bind]. destruct (parse (b_fmt b) true (path ++ rest)); reflexivity.
+    - rewrite Hd. cbn [help_pick_default bind]. destruct (help_lenient (b_fmt b) (path ++ rest)); reflexivity.
     - destruct path as [|t r]; [congruence|exact Hh].
     - now rewrite (leading_app_stopped _ _ Hplain Hst).
   Qed.
